@@ -138,7 +138,7 @@ Definition AssertOk (operand asserted : sty) : Prop := operand = SAny /\ asserte
    program's verdict and typeof output must be.  TypesSpecProofs.v proves
    each function equivalent to the relation above it. *)
 
-Fixpoint conv_b (from to : sty) : bool :=
+Fixpoint conv_b (from to : sty) {struct to} : bool :=
   match to, from with
   | SAny, _ => true
   | SArr b, SArr a => conv_b a b
